@@ -298,6 +298,9 @@ def gen_case(rng, nops):
             "discard": rng.random() < 0.3}
     if domain == "rect":
         case["bounds"] = [rng.choice([(-1.0, 1.0), (0.0, 1.0), (-3.0, 5.0), (0.0, 0.25), (10.0, 50.0)]) for _ in range(dim)]
+        if rng.random() < 0.2:  # a domain far from the origin compared with its size (the property is translation invariant)
+            case["bounds"] = [rng.choice([(1000.0, 1001.0), (200.0, 201.0), (-512.0, -511.0), (0.0, 1.0), (1000.0, 1004.0)])
+                              for _ in range(dim)]
         if dim == 3 and rng.random() < 0.04:  # extreme aspect ratio (the triangulation's flatness test is not scale-aware)
             case["bounds"] = [(0.0, 1e-3), (10.0, 1e3), (0.0, 1.0)]
         case["bbox"] = case["bounds"]
